@@ -95,8 +95,8 @@ type mcHarness struct {
 	errs    []string
 	cbMu    sync.RWMutex // callbacks hold it shared; the harness takes it exclusively to switch them off
 	cbOff   bool
-	judged  int32 // set with the first violation of the case
-	prog    int64 // progress signal for the stall watchdog: deliveries + returned Send calls
+	judged  int32  // set with the first violation of the case
+	prog    int64  // progress signal for the stall watchdog: deliveries + returned Send calls
 	broken  *int32 // the harness pipe's "reset" flag (nil for net.Pipe)
 }
 
@@ -246,23 +246,40 @@ func (h *mcHarness) onReceive(to, from *side) func(chID byte, b []byte) {
 	}
 }
 
-// wireTail decodes the plaintext packet stream a side wrote and describes its last n packets.
-func wireTail(log []byte, payload, n int) []string {
+// decodePackets decodes the plaintext packet stream a side wrote. The last packet may be
+// incomplete on the wire (the buffered writer flushes at arbitrary offsets, the transport may
+// have been cut): the decoder does not report that (it returns a partially filled packet), so
+// completeness is established by re-encoding and comparing the consumed length.
+func decodePackets(log []byte, payload int, f func(p p2pconn.Packet, complete bool)) {
 	rd := bytes.NewReader(log)
-	var out []string
 	for rd.Len() > 0 {
+		before := rd.Len()
 		var p p2pconn.Packet
-		if _, err := ser.DecodeReaderWithType(rd, &p, int64(payload+4096)); err != nil {
-			out = append(out, "(undecodable tail: "+err.Error()+")")
-			break
+		if _, err := ser.DecodeReaderWithType(rd, &p, int64(payload+4096)); err != nil || p == nil {
+			return
 		}
-		switch pk := p.(type) {
-		case p2pconn.PacketMsg:
-			out = append(out, fmt.Sprintf("msg ch=%#x eof=%d len=%d head=%s", pk.ChannelID, pk.EOF, len(pk.Bytes), short(pk.Bytes)))
-		default:
-			out = append(out, fmt.Sprintf("%T", p))
+		enc, err := ser.EncodeToBytesWithType(p)
+		complete := err == nil && len(enc) == before-rd.Len()
+		f(p, complete)
+		if !complete {
+			return
 		}
 	}
+}
+
+// wireTail describes the last n packets a side put on the wire.
+func wireTail(log []byte, payload, n int) []string {
+	var out []string
+	decodePackets(log, payload, func(p p2pconn.Packet, complete bool) {
+		d := fmt.Sprintf("%T", p)
+		if pk, ok := p.(p2pconn.PacketMsg); ok {
+			d = fmt.Sprintf("msg ch=%#x eof=%d len=%d head=%s", pk.ChannelID, pk.EOF, len(pk.Bytes), short(pk.Bytes))
+		}
+		if !complete {
+			d += " (INCOMPLETE on the wire: only its first bytes were written before the transport failed; the length shown is what the decoder made of it)"
+		}
+		out = append(out, d)
+	})
 	if len(out) > n {
 		out = out[len(out)-n:]
 	}
@@ -685,12 +702,10 @@ func (h *mcHarness) postCheck(from, to *side) {
 // packetStats decodes the plaintext packet stream a side wrote and counts what the
 // scheduler actually did (observation only).
 func (h *mcHarness) packetStats(s *side) {
-	rd := bytes.NewReader(s.tap.bytes())
 	open := map[byte]bool{}
-	for rd.Len() > 0 {
-		var p p2pconn.Packet
-		if _, err := ser.DecodeReaderWithType(rd, &p, int64(h.spec.Payload+4096)); err != nil {
-			break
+	decodePackets(s.tap.bytes(), h.spec.Payload, func(p p2pconn.Packet, complete bool) {
+		if !complete {
+			return
 		}
 		switch pk := p.(type) {
 		case p2pconn.PacketMsg:
@@ -707,5 +722,5 @@ func (h *mcHarness) packetStats(s *side) {
 		case p2pconn.PacketPong:
 			h.c.Count("mc_pongs", 1)
 		}
-	}
+	})
 }
